@@ -16,6 +16,8 @@ NP == 2
 TablesSmall == {<<1, 0>>, <<2, 0>>, <<1, 1>>}
 TablesMid == {<<1, 0>>, <<2, 0>>, <<1, 1>>, <<2, 2>>}
 DeltasSmall == {<<0, 0>>, <<1, 0>>, <<-1, 0>>, <<0, 1>>}
+TablesTwo == {<<1, 0>>, <<2, 0>>}
+DeltasThree == {<<0, 0>>, <<1, 0>>, <<-1, 0>>}
 
 \* ---- (1) stores and corruptions of their exports
 RECURSIVE TableSeqs(_)
@@ -40,7 +42,7 @@ Tamper(q, k, comp) == [j \in DOMAIN q |-> IF j = k THEN [q[j] EXCEPT !.delta = P
 
 Corruptions(s, st) ==
   LET n == Len(s.blocks) IN
-       {[class |-> "trunc", s |-> [s EXCEPT !.blocks = SubSeq(@, 1, k), !.torn = tr]] : k \in 0..(n - 1), tr \in BOOLEAN}
+       {[class |-> "trunc", s |-> [s EXCEPT !.blocks = SubSeq(@, 1, k), !.torn = tr]] : k \in 0..(n - 1), tr \in {"", "len", "mid"}}
   \cup {[class |-> "trunc", s |-> [s EXCEPT !.blocks = <<>>, !.hdrTorn = TRUE]]}
   \cup {[class |-> "gap", s |-> [s EXCEPT !.blocks = DropAt(@, k)]] : k \in 1..(n - 1)}
   \cup {[class |-> "reorder", s |-> [s EXCEPT !.blocks = SwapAt(@, k)]] : k \in 1..(n - 1)}
@@ -59,12 +61,14 @@ CasesOf(st, e) ==
        {[kind |-> "roundtrip", st |-> st, e |-> e, m |-> m, s |-> Export(st, e), class |-> "none"] : m \in Manifests(st)}
   \cup {[kind |-> "corrupt", st |-> st, e |-> e, m |-> NoManifest, s |-> x.s, class |-> x.class] : x \in Corruptions(Export(st, e), st)}
   \cup {[kind |-> "corrupt", st |-> st, e |-> e, m |-> m, s |-> Export(st, e), class |-> "manifest"] : m \in BadManifests(st)}
+  \* the complete export followed by the beginning of one more block: not one of the property's classes
+  \cup {[kind |-> "junk", st |-> st, e |-> e, m |-> NoManifest, s |-> [Export(st, e) EXCEPT !.torn = tr], class |-> "junk"] : tr \in {"len", "mid"}}
 MCInitStores ==
   \E f \in Firsts, i \in Tables, n \in 1..MaxLen : \E ts \in TableSeqs(n) :
     LET st == StoreOf(f, i, ts) IN \E e \in f..Latest(st) : c \in CasesOf(st, e)
 MCSpecStores == MCInitStores /\ [][UNCHANGED c]_c
 
-StoresWellFormed == WellFormed(c.st)
+StoresWellFormed == WellFormed(c.st) /\ Tabs(c.st) = [j \in 1..(Len(c.st.certs) + 1) |-> TableAt(c.st, c.st.first + j - 1)]
 RoundTrip == c.kind = "roundtrip" =>
                LET r == Import(c.s, c.m, F) IN r.ok /\ Proj(r.store) = Proj(UpTo(c.st, c.e)) /\ Valid(c.s, c.m, F)
 ClassOf(s, m) == {x \in {"trunc", "gap", "reorder", "surplus", "header", "manifest", "baddelta"} :
@@ -74,6 +78,9 @@ ClassOf(s, m) == {x \in {"trunc", "gap", "reorder", "surplus", "header", "manife
 \* every corruption is rejected, and is recognised as (at least) the class it was built as
 RejectsCorrupt == c.kind = "corrupt" => (~Import(c.s, c.m, F).ok /\ c.class \in ClassOf(c.s, c.m))
 
+\* as coded: a lone length prefix after the last announced certificate reads as the end of the stream
+TrailingJunk == c.kind = "junk" => (Import(c.s, c.m, F).ok <=> c.s.torn = "len") /\ ClassOf(c.s, c.m) = {}
+
 \* ---- (2) the whole bounded snapshot space
 Blocks == [inst : SpaceInsts, delta : SpaceDeltas, commit : Tables]
 RECURSIVE BlockSeqs(_)
@@ -82,7 +89,7 @@ MCInitSpace ==
   \E f \in Firsts, la \in SpaceInsts, i \in Tables, n \in 0..MaxBlocks :
     \E bs \in BlockSeqs(n), m \in {NoManifest, [on |-> TRUE, first |-> CHOOSE x \in Firsts : TRUE, hasTable |-> TRUE, table |-> CHOOSE t \in Tables : TRUE]} :
       c = [kind |-> "space", m |-> m, class |-> "any",
-           s |-> [first |-> f, latest |-> la, init |-> i, blocks |-> bs, hdrTorn |-> FALSE, torn |-> FALSE]]
+           s |-> [first |-> f, latest |-> la, init |-> i, blocks |-> bs, hdrTorn |-> FALSE, torn |-> ""]]
 MCSpecSpace == MCInitSpace /\ [][UNCHANGED c]_c
 ImportIffValid == c.kind = "space" => (Import(c.s, c.m, F).ok <=> Valid(c.s, c.m, F))
 AcceptedIsWellFormed == (c.kind = "space" /\ Import(c.s, c.m, F).ok) =>
